@@ -268,7 +268,7 @@ theorem sim_join (hR : R w s) (hact : w.tid < w.ctl.length) {b : Nat}
   rcases hst with hst | hst
   · simp only [hst] at h
     obtain ⟨⟨w1, st⟩, h1, h⟩ := bind_ok h
-    obtain ⟨rfl, hq, hc⟩ := notifyWait1_obs hobj hspur h1
+    obtain ⟨rfl, hq, hc, _⟩ := notifyWait1_obs hobj hspur h1
     simp only [pure, Except.pure] at h
     cases h
     refine sim_stage1 hR hact hop ⟨hq.prog, hq.spawned, hq.events, hq.len, hq.view⟩ ?_
@@ -450,6 +450,183 @@ theorem step_sim (hwf : WF w.prog) (hR : R w s) (hact : w.tid < w.ctl.length)
     case spawn b => exact sim_spawn hwf hR hact hop h
     case join b => exact sim_join hR hact hop h
     case ifEq i r n => exact sim_ifEq hR hact hop h
+
+/-! ### the active thread stays in the thread table -/
+
+/-- after a successful stage of a fragment operation (or of the epilogue) the active thread, if there is one,
+is in the thread table: the scheduling points establish it (`Exec.schedule` fails with `.internal 31` when the
+path names a thread that does not exist), the other stages keep the active thread and do not shrink the table -/
+theorem step_inRange (hwf : WF w.prog) (hR : R w s) (hact : w.tid < w.ctl.length)
+    (h : w.stepActive = .ok w') : InRange w' := by
+  have hin : w.tid < w.exec.threads.threads.length := by rw [← hR.lenCtl]; exact hact
+  obtain ⟨_, hrel, hof⟩ := base hR hact
+  unfold World.stepActive at h
+  simp only at h
+  cases hop : opAt w with
+  | none =>
+    unfold opAt at hop
+    rw [hop] at h
+    replace h : w.runEpilogue (w.ctlOf w.tid) = .ok w' := h
+    have hloc := hrel.2.2.2.2.2.1
+    have hdq := hrel.2.2.2.2.2.2
+    have hdl : w.dropLocals = w := dropLocals_frag w hloc hdq
+    by_cases h10 : 10 ≤ (w.ctlOf w.tid).fin
+    · rw [runEpilogue_finish w _ h10] at h
+      unfold World.finishThread at h
+      split at h
+      · cases h
+      · rw [dropPass_eq, hdl] at h
+        split at h
+        · cases h
+          exact inRange_of rfl (Nat.le_refl _) hin
+        · split at h
+          · rw [hdq] at h
+            simp only at h
+            exact threadDone_inRange h
+          · rw [hdq] at h
+            cases h
+    · have hlt : (w.ctlOf w.tid).fin < 10 := by omega
+      by_cases ht0 : w.tid = 0
+      · rw [runEpilogue_main w _ ht0 hlt] at h
+        cases h
+        exact inRange_of rfl (Nat.le_refl _) hin
+      · have hfind : ∃ b n, w.spawned.find? (·.2.1 == w.tid) = some (b, w.tid, n) := by
+          cases hf : w.spawned.find? (·.2.1 == w.tid) with
+          | none =>
+            unfold World.runEpilogue at h
+            simp [h10, ht0, hf, bind, Except.bind, throw, throwThe, MonadExceptOf.throw] at h
+          | some e =>
+            obtain ⟨b, t, n⟩ := e
+            have := List.find?_some hf
+            simp only [beq_iff_eq] at this
+            subst this
+            exact ⟨b, n, rfl⟩
+        obtain ⟨b, n, hf⟩ := hfind
+        have hmem := List.mem_of_find?_eq_some hf
+        rw [runEpilogue_spawned w _ b n ht0 hf hlt] at h
+        split at h
+        · rw [hdl] at h
+          cases h
+          exact inRange_of rfl (Nat.le_refl _) hin
+        · split at h
+          · rw [dropPass_eq, hdl] at h
+            split at h
+            · cases h
+              exact inRange_of rfl (Nat.le_refl _) hin
+            · split at h
+              · rw [hdq] at h
+                simp only at h
+                exact branch_inRange h
+              · rw [hdq] at h
+                cases h
+          · obtain ⟨hlt', hbody, nt, hv, hnt⟩ := hR.y.sp b w.tid n hmem
+            obtain ⟨ns, hobj, hspur, hnotified⟩ := objView_notify hv
+            obtain ⟨w1, h1, h⟩ := bind_ok h
+            obtain ⟨hc1, ht1, hp1, hs1, he1, hl1, _⟩ := notifyEffect_obs hobj h1
+            simp only [pure, Except.pure] at h
+            cases h
+            exact inRange_of (w' := w1.modCtl w.tid _) ht1 (Nat.le_of_eq hl1.symm) hin
+  | some op =>
+    have hop' := hop
+    unfold opAt at hop'
+    rw [hop'] at h
+    simp only at h
+    have hok := hwf.opOk hop'
+    cases op <;> simp only [opOk, Bool.false_eq_true, Bool.and_eq_true, decide_eq_true_eq] at hok
+    case cellRead c =>
+      rw [runOp_cellRead] at h
+      obtain ⟨cs, hg, h⟩ := bind_ok h
+      simp only [bind, Except.bind, pure, Except.pure, throw, throwThe, MonadExceptOf.throw] at h
+      repeat' split at h
+      all_goals try (cases h; done)
+      cases h
+      refine inRange_of (w := w) rfl ?_ hin
+      show _ ≤ w.sync.exec.threads.threads.length
+      rw [sync_len]; exact Nat.le_refl _
+    case cellWrite c v =>
+      rw [runOp_cellWrite] at h
+      obtain ⟨cs, hg, h⟩ := bind_ok h
+      simp only [bind, Except.bind, pure, Except.pure, throw, throwThe, MonadExceptOf.throw] at h
+      repeat' split at h
+      all_goals try (cases h; done)
+      cases h
+      refine inRange_of (w := w) rfl ?_ hin
+      show _ ≤ w.sync.exec.threads.threads.length
+      rw [sync_len]; exact Nat.le_refl _
+    case lock mi =>
+      obtain ⟨l, hv, hmap, hown⟩ := hR.y.mtx mi hok
+      obtain ⟨ms, hobj, hlock⟩ := objView_mutex hv
+      have hobj' : w.exec.objs[w.mutexObj mi]? = some (.mutex ms) := hobj
+      rw [runOp_lock] at h
+      split at h
+      · simp only [getMutex_of hobj', bind, Except.bind] at h
+        exact branch_inRange h
+      · obtain ⟨⟨w1, okk⟩, hpa, h⟩ := bind_ok h
+        obtain ⟨hk, hc1, ht1, hp1, hs1, he1, hl1, _, hobjs⟩ := postAcquire_obs hobj' hpa
+        cases okk with
+        | false => simp [bind, Except.bind, throw, throwThe, MonadExceptOf.throw] at h
+        | true =>
+          simp only [Bool.not_true, Bool.false_eq_true, if_false, bind, Except.bind, pure, Except.pure] at h
+          cases h
+          exact inRange_of (w' := w1.complete .unit) ht1 (Nat.le_of_eq hl1.symm) hin
+    case tryLock mi =>
+      obtain ⟨l, hv, hmap, hown⟩ := hR.y.mtx mi hok
+      obtain ⟨ms, hobj, hlock⟩ := objView_mutex hv
+      have hobj' : w.exec.objs[w.mutexObj mi]? = some (.mutex ms) := hobj
+      rw [runOp_tryLock] at h
+      split at h
+      · exact branch_inRange h
+      · obtain ⟨⟨w1, okk⟩, hpa, h⟩ := bind_ok h
+        obtain ⟨hk, hc1, ht1, hp1, hs1, he1, hl1, _, hobjs⟩ := postAcquire_obs hobj' hpa
+        simp only [pure, Except.pure] at h
+        cases h
+        exact inRange_of (w' := w1.complete _) ht1 (Nat.le_of_eq hl1.symm) hin
+    case unlock mi =>
+      obtain ⟨l, hv, hmap, hown⟩ := hR.y.mtx mi hok
+      obtain ⟨ms, hobj, hlock⟩ := objView_mutex hv
+      have hobj' : w.exec.objs[w.mutexObj mi]? = some (.mutex ms) := hobj
+      rw [runOp_unlock] at h
+      obtain ⟨w1, hrl, h⟩ := bind_ok h
+      obtain ⟨hc1, ht1, hp1, hs1, he1, hl1, _⟩ := releaseLock_obs hobj' hrl
+      simp only [pure, Except.pure] at h
+      cases h
+      exact inRange_of (w' := w1.complete .unit) ht1 (Nat.le_of_eq hl1.symm) hin
+    case spawn b =>
+      obtain ⟨w2, rfl, hp, ht, hev, hc, hsp, hobjs, hlen⟩ := spawn_obs h
+      refine inRange_of (w' := w2.complete .unit) ht ?_ hin
+      show _ ≤ w2.exec.threads.threads.length
+      rw [hlen]; omega
+    case join b =>
+      rw [runOp_join] at h
+      obtain ⟨⟨tid', n⟩, hl, h⟩ := bind_ok h
+      have hent : ∃ b'', (b'', tid', n) ∈ w.spawned := by
+        unfold World.lookupSpawn at hl
+        split at hl
+        · next b'' t'' n'' hf =>
+          cases hl
+          exact ⟨b'', List.mem_of_find?_eq_some hf⟩
+        · cases hl
+      obtain ⟨b'', hmem⟩ := hent
+      obtain ⟨hlt, hbody, nt, hv, hnt⟩ := hR.y.sp _ tid' n hmem
+      obtain ⟨ns, hobj, hspur, hnotified⟩ := objView_notify hv
+      have hst : (w.ctlOf w.tid).stage = 0 ∨ (w.ctlOf w.tid).stage = 1 := by
+        have := hrel.2.2.2.2.1; omega
+      rcases hst with hst | hst
+      · simp only [hst] at h
+        obtain ⟨⟨w1, st⟩, h1, h⟩ := bind_ok h
+        obtain ⟨rfl, hq, hc, hr⟩ := notifyWait1_obs hobj hspur h1
+        simp only [pure, Except.pure] at h
+        cases h
+        exact hr
+      · simp only [hst] at h
+        obtain ⟨w1, h1, h⟩ := bind_ok h
+        obtain ⟨hn1, hc1, ht1, hp1, hs1, he1, hl1, hobjs⟩ := notifyWait2_obs hobj h1
+        simp only [pure, Except.pure] at h
+        cases h
+        exact inRange_of (w' := w1.complete .unit) ht1 (Nat.le_of_eq hl1.symm) hin
+    case ifEq i r n =>
+      rw [runOp_ifEq] at h
+      split at h <;> (cases h; exact inRange_of rfl (Nat.le_refl _) hin)
 
 end
 
